@@ -73,7 +73,10 @@ impl StyleSheetOutput {
             token.to_css(&mut self.s).unwrap();
         }
         let name = src.map(|x| {
-            let s = x.to_css_string();
+            let mut s = String::new();
+            if !write_integer_token(&x, &mut s) {
+                s = x.to_css_string();
+            }
             self.source_map.add_name(&s)
         });
         self.source_map.add_raw(
